@@ -6,6 +6,12 @@ put_model; then (a) one mjw.step() is compared with mujoco.mj_step() from the sa
 mjw.inverse() is compared with mj_forward(); mj_inverse() fed with the same qacc (makes INVDISCRETE observable).
 Scenes are built so that every flag has something to switch off/on; liveness is *measured* per case and flag: toggling
 that one flag (S vs S minus f) changes MuJoCo's own result.
+
+A flag usually acts in more than one code path (CLAMPCTRL: the actuator force AND the velocity derivative d force/d qvel that
+the implicit integrators put into M - h*qDeriv; DAMPER: passive force, qDeriv, Euler's implicit damping; every flag: the RK4
+stages). The second family 'xi' therefore crosses flag sets with all four integrators on actuator-dense scenes (velocity-
+dependent actuator gains/biases scaled to the inertia they act on, driven outside ctrlrange; joint and tendon damping), and
+liveness is additionally measured *in the derivative path*: toggling the flag changes MuJoCo's qDeriv.
 """
 
 import mujoco
@@ -21,7 +27,12 @@ RULE = (
   "solref below 2*timestep), dof/tendon frictionloss, springs, dampers, gravcomp, actuators with ctrl outside ctrlrange, "
   "pre-solver sensors, plus free spheres/capsules resting on a plane and a parent/child pair of overlapping colliding geoms; "
   "S runs over all singletons, all pairs and random subsets of 19 flags; 2 worlds with different states and non-zero "
-  "warmstart. Non-trivial: >=1 world judged on qvel under S; distinct by hash(xml, S, integrator, states)."
+  "warmstart; scene index and integrator are decorrelated (every scene meets every integrator). Family xi: the same scenes "
+  "plus 3-4 appended velocity-feedback actuators (affine gain with gainprm[2]!=0 with/without activation dynamics, actearly, "
+  "actrange, forcerange, tendon transmission; damper; position with kv), coefficient scaled so that h*coef*ctrl*J^T M^-1 J is "
+  "0.15-0.45, ctrl outside ctrlrange; S = every singleton x {Euler, RK4, implicit, implicitfast}, pairs with CLAMPCTRL/DAMPER/"
+  "ACTUATION and random subsets containing one of them under implicit/implicitfast. "
+  "Non-trivial: >=1 world judged on qvel under S; distinct by hash(xml, S, integrator, states)."
 )
 ASSUMPTIONS = [
   "MuJoCo 3.13 with the same flag bits is the reference; flags are baked into the MJWarp Model at put_model time",
@@ -30,8 +41,9 @@ ASSUMPTIONS = [
   "liveness of flag f in a case = MuJoCo's one-step result (qpos,qvel,act,sensordata,energy,qfrc_inverse,ne/nf/nl/nefc/ncon,"
   "solver iterations, island count) differs between S and S with f toggled",
   "INVDISCRETE is only combined with Euler / implicitfast (MJWarp rejects it for implicit, both engines for RK4)",
+  "liveness of flag f in the derivative path = MuJoCo's qDeriv after an implicit/implicitfast step differs between S and S with f toggled",
 ]
-BUDGET = {"quick": 200, "thorough": 1800}
+BUDGET = {"quick": 240, "thorough": 2400}
 
 DIS = ["CONSTRAINT", "EQUALITY", "FRICTIONLOSS", "LIMIT", "CONTACT", "SPRING", "DAMPER", "GRAVITY", "CLAMPCTRL", "WARMSTART", "FILTERPARENT", "ACTUATION", "REFSAFE", "SENSOR", "EULERDAMP", "ISLAND", "MULTICCD"]
 ENB = ["ENERGY", "INVDISCRETE"]
@@ -93,6 +105,60 @@ def fname(S):
   return "+".join(sorted(("" if k == "d" else "en:") + n for k, n in S)) or "none"
 
 
+IMPL = ("implicitfast", "implicit")
+# flags whose effect also has to reach the velocity-derivative matrix M - h*qDeriv of the implicit integrators (a second code
+# path next to the force itself: derivative.deriv_smooth_vel), crossed with every other flag in the "xi" family
+FOCUS = [("d", "CLAMPCTRL"), ("d", "DAMPER"), ("d", "ACTUATION")]
+
+
+def _valid_integ(S, integ):
+  if ("e", "INVDISCRETE") in [tuple(f) for f in S] and integ in ("implicit", "RK4"):
+    return "implicitfast"
+  return integ
+
+
+def xi_cases(tier, seed):
+  """Family 'xi': flag sets x integrators on actuator-dense scenes (build_scene(dense=True)): every scene carries
+  velocity-feedback actuators (velocity-dependent gain or bias, with/without activation dynamics, ctrl- and force-limited,
+  joint and tendon transmissions) driven outside ctrlrange, joint and tendon damping - the features through which a flag
+  reaches integrator-specific code (qDeriv of implicit/implicitfast, Euler's implicit damping, the RK4 stages)."""
+  quick = tier == "quick"
+  nd = 6 if quick else 40
+  rng = np.random.default_rng(seed + 777)
+  xs = []
+  for r in range(1 if quick else 4):
+    for f in FLAGS:
+      for integ in INT_ENUM:
+        if _valid_integ([f], integ) == integ:
+          xs.append(([f], integ))
+  k = 0
+  first = FOCUS if quick else FLAGS
+  seen = set()
+  for f in first:
+    for g in FLAGS:
+      key = frozenset((f, g))
+      if g == f or key in seen:
+        continue
+      seen.add(key)
+      S = sorted([f, g], key=FLAGS.index)
+      for integ in (IMPL[k % 2],) if quick else IMPL:
+        xs.append((S, _valid_integ(S, integ)))
+      k += 1
+  for _ in range(25 if quick else 1500):
+    n = int(rng.integers(3, 9))
+    idx = sorted(rng.choice(len(FLAGS), size=n, replace=False).tolist())
+    S = [FLAGS[i] for i in idx]
+    if not any(f in S for f in FOCUS):
+      S[int(rng.integers(len(S)))] = FOCUS[int(rng.integers(len(FOCUS)))]
+      S = sorted(set(S), key=FLAGS.index)
+    integ = ("Euler", "RK4", "implicit", "implicitfast", "implicit", "implicitfast")[int(rng.integers(6))]
+    xs.append((S, _valid_integ(S, integ)))
+  out = []
+  for n, (S, integ) in enumerate(xs):
+    out.append({"id": f"s{seed}_xi{n}", "seed": seed * 100000 + 50000 + n, "scene": seed * 1000 + 500 + ((n + n // 4 + n // 24) % nd), "dense": True, "flags": [list(f) for f in S], "integrator": integ, "weight": 1})
+  return out
+
+
 def cases(tier, seed):
   nscene = 6 if tier == "quick" else 40
   sets = [[]]
@@ -111,11 +177,113 @@ def cases(tier, seed):
       integ = "implicitfast"
     if "EULERDAMP" in names and len(S) <= 2:
       integ = "Euler"
-    out.append({"id": f"s{seed}_{n}", "seed": seed * 100000 + n, "scene": seed * 1000 + (n % nscene), "flags": [list(f) for f in S], "integrator": integ, "weight": 1})
-  return out
+    # (n + n // 6): the scene index is decorrelated from the integrator slot n % 6, every scene meets every integrator
+    out.append({"id": f"s{seed}_{n}", "seed": seed * 100000 + n, "scene": seed * 1000 + ((n + n // 6) % nscene), "flags": [list(f) for f in S], "integrator": integ, "weight": 1})
+  # interleave the xi family (a soft-budget expiry must not drop one family as a whole)
+  xi = xi_cases(tier, seed)
+  merged = []
+  step = max(1, len(out) // max(1, len(xi)))
+  j = 0
+  for i, c in enumerate(out):
+    merged.append(c)
+    if (i + 1) % step == 0 and j < len(xi):
+      merged.append(xi[j])
+      j += 1
+  merged += xi[j:]
+  return merged
 
 
-def build_scene(scene_seed):
+def _g(x):
+  return " ".join(f"{float(v):.6g}" for v in np.atleast_1d(x))
+
+
+DENSE_KINDS = ("velgain", "damper", "velgain_forcelimited", "velgain_dyn", "velgain_tendon", "position_kv", "velgain_bias")
+
+
+def dense_actuators(xml, rng):
+  """Appends 3-4 velocity-feedback actuators (names c32_x*) to the scene: the first one always has a velocity-dependent
+  gain, no activation dynamics and a ctrlrange (the combination through which ctrl reaches qDeriv); the others are drawn
+  from DENSE_KINDS. Returns the new xml (or the old one if the scene has no scalar joint)."""
+  try:
+    mjm = mujoco.MjModel.from_xml_string(xml)
+  except Exception:
+    return xml
+  joints = [mujoco.mj_id2name(mjm, mujoco.mjtObj.mjOBJ_JOINT, j) for j in range(mjm.njnt) if int(mjm.jnt_type[j]) in (int(mujoco.mjtJoint.mjJNT_HINGE), int(mujoco.mjtJoint.mjJNT_SLIDE))]
+  joints = [j for j in joints if j]
+  tendons = [t for t in (mujoco.mj_id2name(mjm, mujoco.mjtObj.mjOBJ_TENDON, t) for t in range(mjm.ntendon)) if t]
+  if not joints:
+    return xml
+  kinds = ["velgain"] + [DENSE_KINDS[int(rng.integers(len(DENSE_KINDS)))] for _ in range(int(rng.integers(2, 4)))]
+  out, rho, cmax = [], [], []
+  for i, kind in enumerate(kinds):
+    j = joints[int(rng.integers(len(joints)))]
+    trn = f'joint="{j}" gear="{_g(rng.choice([-1, 1]) * rng.uniform(0.5, 2))}"'
+    if kind == "velgain_tendon":
+      if tendons:
+        trn = f'tendon="{tendons[int(rng.integers(len(tendons)))]}" gear="{_g(rng.uniform(0.5, 2))}"'
+      kind = "velgain"
+    lo = rng.uniform(-1.5, 0)
+    hi = lo + rng.uniform(0.5, 2)
+    cr = f'ctrllimited="true" ctrlrange="{_g([lo, hi])}"'
+    # velocity coefficient (gainprm[2] / kv) is written as the placeholder @Ci@ and fixed in a second pass, relative to the
+    # inertia seen by the transmission: rho = h * |coef| * |ctrl|max * (moment^T M^-1 moment) is the relative weight of the
+    # actuator's term in M - h*qDeriv (>= ~0.03 to be visible above the float32 allowance, < 1 to keep the matrix definite
+    # when the term is anti-dissipative); sign mostly dissipative for ctrl > 0
+    rho.append(float(rng.uniform(0.15, 0.45) * (-1 if rng.random() < 0.75 else 1)))
+    cmax.append(max(abs(lo), abs(hi)) + 3.0)
+    gain = f'gaintype="affine" gainprm="{_g([rng.uniform(0.5, 5), rng.normal()])} @C{i}@"'
+    name = f'name="c32_x{i}"'
+    if kind == "velgain":
+      out.append(f'    <general {name} {trn} {gain} {cr}/>')
+    elif kind == "velgain_bias":
+      out.append(f'    <general {name} {trn} {gain} biastype="affine" biasprm="{_g(rng.normal(size=3) * [2, 2, 0.5])}" {cr}/>')
+    elif kind == "damper":
+      hi = rng.uniform(0.5, 2)
+      rho[-1], cmax[-1] = abs(rho[-1]), hi + 3.0
+      out.append(f'    <damper {name} {trn} kv="@C{i}@" ctrlrange="0 {_g(hi)}"/>')
+    elif kind == "velgain_forcelimited":
+      fr = float(rng.choice([5.0, 50.0, 500.0]))
+      out.append(f'    <general {name} {trn} {gain} {cr} forcelimited="true" forcerange="{_g([-fr, fr])}"/>')
+    elif kind == "velgain_dyn":
+      dyn = ("integrator", "filter", "filterexact")[int(rng.integers(3))]
+      extra = f'dyntype="{dyn}" dynprm="{_g(1 if dyn == "integrator" else rng.uniform(0.01, 0.3))}"'
+      if rng.random() < 0.5:
+        extra += ' actearly="true"'
+      if rng.random() < 0.5:
+        a = rng.uniform(-1.2, -0.1)
+        extra += f' actlimited="true" actrange="{_g([a, a + rng.uniform(0.5, 2.5)])}"'
+      out.append(f'    <general {name} {trn} {gain} {extra} {cr}/>')
+    elif kind == "position_kv":
+      rho[-1], cmax[-1] = abs(rho[-1]), 1.0
+      out.append(f'    <position {name} {trn} kp="{_g(rng.uniform(1, 30))}" kv="@C{i}@" {cr}/>')
+
+  def render(coef):
+    block = "\n".join(out) + "\n"
+    for i, c in enumerate(coef):
+      block = block.replace(f"@C{i}@", _g(c))
+    if "</actuator>" in xml:
+      return xml.replace("  </actuator>", block + "  </actuator>", 1)
+    return xml.replace("</mujoco>", "  <actuator>\n" + block + "  </actuator>\n</mujoco>", 1)
+
+  # pass 1 with unit coefficients: transmission moments and inertia at qpos0
+  try:
+    m1 = mujoco.MjModel.from_xml_string(render([1.0] * len(out)))
+  except Exception:
+    return xml
+  d1 = mujoco.MjData(m1)
+  mujoco.mj_forward(m1, d1)
+  Minv = np.linalg.inv(mw.dense_M(m1, d1.M))
+  mom = _step._actuator_moment_dense(m1, d1)
+  h = float(m1.opt.timestep)
+  coef = []
+  for i in range(len(out)):
+    a = mujoco.mj_name2id(m1, mujoco.mjtObj.mjOBJ_ACTUATOR, f"c32_x{i}")
+    s = float(mom[a] @ Minv @ mom[a])
+    coef.append(rho[i] / (h * cmax[i] * s) if s > 1e-9 else 0.1 * np.sign(rho[i]))
+  return render(coef)
+
+
+def build_scene(scene_seed, dense=False):
   rng = np.random.default_rng(scene_seed + 99)
   xml, mjm, feat, _ = gen.make_model(scene_seed, P_SCENE, accept=_step.well_conditioned)
   if xml is None:
@@ -129,6 +297,8 @@ def build_scene(scene_seed):
     if 'name="eq0"' in ln and "solref" not in ln:
       lines[i] = ln.replace('name="eq0"', 'name="eq0" solref="0.003 1"', 1)
   xml = "\n".join(lines)
+  if dense:
+    xml = dense_actuators(xml, np.random.default_rng(scene_seed + 1234))
   return xml, list(feat)
 
 
@@ -151,6 +321,17 @@ def sample_states(mjm, rng, nworld=2):
     st["qpos"] = qp.astype(np.float32)
     st["qvel"] = qv.astype(np.float32)
     st["xfrc_applied"] = (st["xfrc_applied"] * 0.3).astype(np.float32)
+    # dense scenes: the appended velocity-feedback actuators are driven outside their ctrlrange (always the first one in
+    # world 0, the others in 70% of the draws, either side), so that CLAMPCTRL decides which ctrl enters force AND qDeriv
+    ctrl = st["ctrl"].astype(np.float64)
+    for i in range(mjm.nu):
+      nm = mujoco.mj_id2name(mjm, mujoco.mjtObj.mjOBJ_ACTUATOR, i) or ""
+      if nm.startswith("c32_x") and mjm.actuator_ctrllimited[i]:
+        u, side, mag = rng.random(), rng.random(), rng.uniform(1.0, 3.0)
+        if (nm == "c32_x0" and w == 0) or u < 0.7:
+          lo, hi = mjm.actuator_ctrlrange[i]
+          ctrl[i] = hi + mag if side < 0.6 else lo - mag
+    st["ctrl"] = ctrl.astype(np.float32)
     st["qacc_warmstart"] = (rng.normal(size=mjm.nv) * 2.0).astype(np.float32)
     if w == 1:
       # a *useful* warmstart (the converged acceleration of the unflagged model): MuJoCo discards a warmstart that is worse
@@ -181,7 +362,10 @@ def mj_observe(mjm, st, qacc_for_inverse=None):
   d2 = mujoco.MjData(mjm)
   mw.apply_state_mj(mjm, d2, st)
   mujoco.mj_step(mjm, d2)
-  return {"cont": np.concatenate([d2.qpos, d2.qvel, d2.act, d2.sensordata, d2.energy, qinv]), "disc": np.array([d2.ne, d2.nf, d2.nl, d2.nefc, d2.ncon, nisl, niter])}
+  implicit = int(mjm.opt.integrator) in (int(mujoco.mjtIntegrator.mjINT_IMPLICIT), int(mujoco.mjtIntegrator.mjINT_IMPLICITFAST))
+  # qDeriv (d smooth force / d velocity) as used by MuJoCo's implicit step: a flag that changes it is live in the
+  # derivative code path, not only in the force
+  return {"cont": np.concatenate([d2.qpos, d2.qvel, d2.act, d2.sensordata, d2.energy, qinv]), "disc": np.array([d2.ne, d2.nf, d2.nl, d2.nefc, d2.ncon, nisl, niter]), "qderiv": np.array(d2.qDeriv) if implicit else None}
 
 
 def run_case(case):
@@ -193,7 +377,8 @@ def run_case(case):
   rng = np.random.default_rng(case["seed"])
   S = [tuple(f) for f in case["flags"]]
   names = {f for _, f in S}
-  xml, feat = build_scene(case["scene"])
+  dense = bool(case.get("dense", False))
+  xml, feat = build_scene(case["scene"], dense)
   if xml is None:
     rec.rejected = "no scene"
     return rec.result()
@@ -287,6 +472,11 @@ def run_case(case):
 
   res = _step.step_compare(rec, mjm, m, states, nsteps=1, seed=case["seed"], prefix=prefix, extra=extra, njmax=128, nconmax=48)
   judged = res["gated"] + res["free"]
+  for v in rec.violations:
+    # integrator-specific, not flag-specific (same mechanism under every flag set): reported under the signature of the
+    # listed finding instead of one signature per flag set
+    if v["sig"].endswith(":act_exact_integration_in_stages"):
+      v["sig"] = "RK4:act_exact_integration_in_stages"
 
   # ---- measured liveness of every flag of S (and of the full set vs none)
   base = [mj_observe(mjm, st, None if qacc_w is None else qacc_w[w][: mjm.nv].astype(np.float64)) for w, st in enumerate(states)]
@@ -294,13 +484,17 @@ def run_case(case):
     mm = copy.copy(mjm)
     S2 = [g for g in S if g != f]
     mm.opt.disableflags, mm.opt.enableflags = flag_bits(S2)
-    live = False
+    live = live_qd = False
     for w, st in enumerate(states):
       alt = mj_observe(mm, st, None if qacc_w is None else qacc_w[w][: mjm.nv].astype(np.float64))
       a, b = base[w]["cont"], alt["cont"]
       fin = np.isfinite(a) & np.isfinite(b)
       if not np.array_equal(base[w]["disc"], alt["disc"]) or (fin.any() and np.abs(a[fin] - b[fin]).max() > 1e-9 * max(1.0, np.abs(b[fin]).max())):
         live = True
+      qa_, qb_ = base[w]["qderiv"], alt["qderiv"]
+      if qa_ is not None and qb_ is not None and qa_.size and np.all(np.isfinite(qa_)) and np.all(np.isfinite(qb_)) and np.abs(qa_ - qb_).max() > 1e-9 * max(1.0, np.abs(qb_).max()):
+        live_qd = True
+      if live and (live_qd or qa_ is None):
         break
     nm = ("" if f[0] == "d" else "en:") + f[1]
     rec.cover("toggled:" + nm, 1)
@@ -308,10 +502,32 @@ def run_case(case):
       rec.cover("live:" + nm, 1)
       if judged:
         rec.cover("live_and_judged:" + nm, 1)
+        rec.cover(f"live_and_judged[{integ}]:" + nm, 1)
       if len(S) == 1:
         rec.cover("live_singleton:" + nm, 1)
+    if live and live_qd:
+      # the flag changes MuJoCo's velocity-derivative matrix: its effect must also reach MJWarp's derivative path
+      rec.cover("live_qderiv:" + nm, 1)
+      if judged:
+        rec.cover("live_qderiv_and_judged:" + nm, 1)
   rec.cover("flagset_size:" + str(min(len(S), 3)) + ("+" if len(S) >= 3 else ""), 1)
   rec.cover("integrator:" + integ, 1)
+  rec.cover("family:" + ("xi" if dense else "base"), 1)
+  if dense:
+    rec.cover("xi:worlds_judged", judged)
+    rec.cover("xi:worlds_ungated", res["ungated"])
+    nvg = nout = 0
+    for i in range(mjm.nu):
+      if (mujoco.mj_id2name(mjm, mujoco.mjtObj.mjOBJ_ACTUATOR, i) or "").startswith("c32_x"):
+        velgain = mjm.actuator_gaintype[i] == mujoco.mjtGain.mjGAIN_AFFINE and mjm.actuator_gainprm[i, 2] != 0
+        nvg += int(velgain)
+        if velgain and mjm.actuator_ctrllimited[i] and mjm.actuator_dyntype[i] == mujoco.mjtDyn.mjDYN_NONE:
+          lo, hi = mjm.actuator_ctrlrange[i]
+          nout += int(any(st["ctrl"][i] < lo or st["ctrl"][i] > hi for st in states))
+    rec.cover("xi:velgain_actuators", nvg)
+    rec.cover("xi:velgain_nodyn_actuators_with_ctrl_outside_ctrlrange", nout)
+    if nout and "CLAMPCTRL" in names and "ACTUATION" not in names and integ in IMPL and judged:
+      rec.cover("xi:judged_cases_CLAMPCTRL_disabled_x_implicit_x_velgain_ctrl_outside_range", 1)
   rec.cover("worlds_judged", judged)
   rec.cover("worlds_ungated", res["ungated"])
   if judged:
@@ -323,6 +539,10 @@ def run_case(case):
 def requirements(agg, tier):
   unmet = []
   cov = agg["cover"]
+  import json, os  # TMPDUMP
+
+  if os.environ.get("C32_COVDUMP"):  # TMPDUMP
+    json.dump({"cover": cov, "tally": agg.get("tally")}, open(os.environ["C32_COVDUMP"], "w"), indent=1, default=str)  # TMPDUMP
   for k, f in FLAGS:
     nm = ("" if k == "d" else "en:") + f
     if cov.get("toggled:" + nm, 0) < 10:
@@ -331,6 +551,22 @@ def requirements(agg, tier):
       continue  # no colliding convex-convex pair with multi-contact support in both engines: liveness is reported, not required
     if cov.get("live_and_judged:" + nm, 0) < 3:
       unmet.append(f"flag uncovered (live and judged in fewer than 3 cases): {nm}")
+  # xi family: the flags that enter the velocity-derivative matrix must have been live there (MuJoCo's qDeriv changes when
+  # the flag is toggled) in judged implicit/implicitfast cases, and every flag must have been live under every integrator
+  for f in ("CLAMPCTRL", "DAMPER", "ACTUATION"):
+    if cov.get("live_qderiv_and_judged:" + f, 0) < 3:
+      unmet.append(f"flag live in qDeriv (implicit integrators) and judged in fewer than 3 cases: {f}")
+  if cov.get("xi:judged_cases_CLAMPCTRL_disabled_x_implicit_x_velgain_ctrl_outside_range", 0) < 3:
+    unmet.append("fewer than 3 judged cases with CLAMPCTRL disabled, implicit integrator, velocity-gain actuator driven outside ctrlrange")
+  if not cov.get("xi:worlds_judged", 0):
+    unmet.append("xi family (flags x integrators on actuator-dense scenes) judged nothing")
+  for k, f in FLAGS:
+    if f in ("MULTICCD", "EULERDAMP", "INVDISCRETE"):
+      continue  # EULERDAMP only acts under Euler, INVDISCRETE is restricted to Euler / implicitfast
+    nm = ("" if k == "d" else "en:") + f
+    for integ in INT_ENUM:
+      if not cov.get(f"live_and_judged[{integ}]:" + nm, 0):
+        unmet.append(f"flag never live and judged under integrator {integ}: {nm}")
   for s in ("flagset_size:1", "flagset_size:2", "flagset_size:3+"):
     if not cov.get(s):
       unmet.append(f"never observed: {s}")
